@@ -15,6 +15,9 @@ from fractions import Fraction as Fr
 
 import numpy as np
 
+import sys
+
+from harness import c16_sessions as SS
 from harness import common as C
 from harness.metricsqs import run_shards_retry
 
@@ -345,6 +348,32 @@ def run(ctx):
                 cases.append(permuted(base, perm))
                 grp.append(len(cases) - 1)
             perm_groups.append(grp)
+    # periodic images: the same points given through other images (X + m * cell) -- run next to the base case
+    img_pairs = []
+    for _ in range(40 if ctx.quick else 250):
+        base = gen_case(ctx.rng, ctx.quick, spread=ctx.rng.random() < 0.5)
+        if base["cell"] is None:
+            span = 1 + max(abs(v) for r in base["X"] for v in r)
+            base["cell"] = [ctx.rng.randint(2, 2 * span + 3) for _ in range(base["d"])]
+        img = dict(base)
+        img["X"] = [[x + ctx.rng.randint(-2, 2) * base["cell"][k] for k, x in enumerate(r)] for r in base["X"]]
+        img["image_shifted"] = True
+        cases.append(base)
+        cases.append(img)
+        img_pairs.append((len(cases) - 2, len(cases) - 1))
+    # deep shells (gabriel_shell up to beyond the graph diameter) and larger point sets
+    big_first = len(cases)
+    for _ in range(10 if ctx.quick else 60):
+        c = gen_case(ctx.rng, ctx.quick, nmax=20 if ctx.quick else 40)
+        if c["mode"] == "gabriel":
+            c["shell"] = ctx.rng.randint(5, max(6, c["n"] + 2))
+            cases.append(c)
+    for _ in range(4 if ctx.quick else 10):
+        lo, hi = (30, 60) if ctx.quick else (40, 64)   # next_gab rebuilds the graph per point in the model: n^4
+        c = gen_case(ctx.rng, ctx.quick, nmax=hi, spread=True)
+        while c["n"] < lo:
+            c = gen_case(ctx.rng, ctx.quick, nmax=hi, spread=True)
+        cases.append(c)
     perm_oracle_only = set(i for grp in perm_groups for i in grp[24:])
     for c in cases:
         recs.append(run_impl(c))
@@ -474,6 +503,93 @@ def run(ctx):
                 C.report_violation(ctx, "C16 fails on the implementation: the partition depends on the order of the "
                                         "points although no distance ties exist (labels %s, expected %s)" % (r["labels"], want),
                                    dict(case=c, observed=r, base_case=c0, base_observed=r0), found_input=True)
+    # periodic images: same cell, other images of the points -> the very same labels.  The squared distances are
+    # a deterministic function of the exact integers (integer-valued wrapped differences, sqrt(sum)**2), so the
+    # two matrices are bitwise equal and so must be everything computed from them; should the matrices differ in
+    # the last bit, only inputs without distance / right-angle ties are compared.
+    stats["image_pairs"] = len(img_pairs)
+    stats["image_pairs_compared"] = 0
+    stats["image_pairs_skipped_ties"] = 0
+    for ib, ii in img_pairs:
+        c0, r0, c1, r1 = cases[ib], recs[ib], cases[ii], recs[ii]
+        if "error" in r0 or "error" in r1:
+            continue
+        if r0["D"] != r1["D"]:
+            D0 = exact_d2(c0["X"], c0["cell"])
+            G0, ties0 = gabriel_exact(D0, c0["n"]) if c0["mode"] == "gabriel" else (None, 0)
+            if ties0 or not tie_free(c0, D0, G0):
+                stats["image_pairs_skipped_ties"] += 1
+                continue
+        stats["image_pairs_compared"] += 1
+        if r0["labels"] != r1["labels"] or r0["centres"] != r1["centres"]:
+            C.report_violation(ctx, "C16 fails on the implementation: the partition depends on which periodic images of "
+                                    "the points are given (labels %s for X, %s for X + m*cell)" % (r0["labels"], r1["labels"]),
+                               dict(case=c1, observed=r1, base_case=c0, base_observed=r0), found_input=True)
+    # ---- session family: histories on estimator objects sharing caller-owned arrays (Model/QSSession.v)
+    P = sys.modules[__name__]
+    nsess = 220 if ctx.quick else 1200
+    sessions = [SS.gen_session(ctx.rng, ctx.quick, P) for _ in range(nsess)]
+    souts = [SS.run_session(s) for s in sessions]
+    sstats = dict(sessions=nsess, steps=0, fits=0, refits_of_one_object=0, cut_array_reused_after_scaled_use=0,
+                  rejected_calls=0, sessions_with_cell=0, sessions_with_distinct_fit_results=0, not_exact=0,
+                  ops={}, oracle_runs=0)
+    s_texts, s_direct = {}, {}
+    for k, (s, o) in enumerate(zip(sessions, souts)):
+        f = SS.features(s, o)
+        sstats["steps"] += len(s["ops"])
+        sstats["fits"] += f[0]
+        sstats["refits_of_one_object"] += f[1]
+        sstats["cut_array_reused_after_scaled_use"] += f[2]
+        sstats["rejected_calls"] += f[3]
+        sstats["sessions_with_distinct_fit_results"] += f[4] > 1
+        sstats["sessions_with_cell"] += s["cell"] is not None
+        for op in s["ops"]:
+            sstats["ops"][op["op"]] = sstats["ops"].get(op["op"], 0) + 1
+        try:
+            s_texts[k] = SS.session_coq(s, o)
+        except SS.NotExact as ex:
+            sstats["not_exact"] += 1
+            s_direct[k] = str(ex)
+    sgroups, cur, size = [], [], 0
+    for k in sorted(s_texts):
+        if cur and (size + len(s_texts[k]) > 250000 or len(cur) >= 300):
+            sgroups.append(cur)
+            cur, size = [], 0
+        cur.append(k)
+        size += len(s_texts[k])
+    if cur:
+        sgroups.append(cur)
+    sshards = [C.SHARD_HEAD + "From Verif Require Import ListX QuickShift QSSession.\n"
+               "Definition verdicts : list bool := [\n %s].\n"
+               "Eval vm_compute in (failing verdicts).\n" % ";\n ".join(s_texts[k] for k in g) for g in sgroups]
+    s_mismatch = []
+    for g, (rc, out) in zip(sgroups, run_shards_retry(ctx.prop, sshards)):
+        lists = C.parse_nat_lists(out)
+        if rc != 0 or len(lists) != 1:
+            corr_broken.append(out[-1500:])
+            continue
+        s_mismatch += [g[k] for k in lists[0]]
+    s_found = []
+    for k in sorted(set(s_mismatch) | set(s_direct)):
+        res = SS.oracle_session(sessions[k], souts[k], P)
+        sstats["oracle_runs"] += 1
+        s_found.append((0 if (res and res[1].startswith("fit at step")) else (1 if res else 2), k, res))
+    sstats["sessions_differing"] = len(s_found)
+    # at most 8 replays (a changed constructor makes most sessions differ): histories in which a fit's
+    # partition is wrong first, then wrong attributes / overwritten caller arrays, then pure model mismatches
+    for _, k, res in sorted(s_found, key=lambda t: (t[0], t[1]))[:8]:
+        rep = dict(case=sessions[k], observed=souts[k], correspondence="session_ok (Model/QSSession.v)",
+                   sessions_differing_in_this_run=len(s_found))
+        if k in s_direct:
+            rep["not_exact"] = s_direct[k]
+        if res:
+            rep["failing_step"] = res[0]
+            C.report_violation(ctx, "C16 fails on the implementation (history of calls): " + res[1], rep, found_input=True)
+        else:
+            rep["note"] = "model trace and implementation trace differ but the step-by-step oracle accepts every step"
+            C.report_violation(ctx, "correspondence QuickShift session model vs implementation broken", rep,
+                               found_input=False)
+    stats["sessions"] = sstats
     for txt in corr_broken:
         C.report_violation(ctx, "correspondence shard did not evaluate", dict(coq_output=txt), found_input=False)
     if not po["ok"]:
@@ -505,7 +621,15 @@ def run(ctx):
 
 def replay(ctx, obj):
     c = obj["case"]
+    if c.get("session"):
+        res = SS.oracle_session(c, SS.run_session(c), sys.modules[__name__])
+        print("replay:", ("step %d: %s" % res) if res else "property holds on this history now")
+        return 1 if res else 0
     r = run_impl(c)
     msg = oracle(c, r)
+    if not msg and c.get("image_shifted") and "base_case" in obj:
+        r0 = run_impl(obj["base_case"])
+        if r0.get("labels") != r.get("labels"):
+            msg = "labels %s for X but %s for other periodic images of the same points" % (r0.get("labels"), r.get("labels"))
     print("replay:", msg or "property holds on this input now")
     return 1 if msg else 0
